@@ -11,6 +11,7 @@ import (
 	"math/big"
 	"os/exec"
 	"strings"
+	"sync"
 	"time"
 )
 
@@ -36,9 +37,24 @@ type Solver struct {
 	elapsed time.Duration
 	log     io.Writer
 	lastErr string
+
+	timeoutMs int
+	killed    bool        // set by the watchdog
+	kills     int         // queries abandoned by the watchdog
+	onRestart func()      // re-establishes the solver context after a restart
+	tempPush  bool        // a query-local (push 1) is open
 }
 
 func startSolver(kind string, timeoutMs int) (*Solver, error) {
+	s := &Solver{name: kind, timeoutMs: timeoutMs}
+	if err := s.spawn(); err != nil {
+		return nil, err
+	}
+	return s, nil
+}
+
+func (s *Solver) spawn() error {
+	kind, timeoutMs := s.name, s.timeoutMs
 	var cmd *exec.Cmd
 	switch kind {
 	case "z3":
@@ -46,26 +62,26 @@ func startSolver(kind string, timeoutMs int) (*Solver, error) {
 	case "cvc5":
 		cmd = exec.Command("cvc5", "--incremental", "--produce-models", "--lang=smt2", fmt.Sprintf("--tlimit-per=%d", timeoutMs))
 	default:
-		return nil, fmt.Errorf("unknown solver %q", kind)
+		return fmt.Errorf("unknown solver %q", kind)
 	}
 	in, err := cmd.StdinPipe()
 	if err != nil {
-		return nil, err
+		return err
 	}
 	outp, err := cmd.StdoutPipe()
 	if err != nil {
-		return nil, err
+		return err
 	}
 	cmd.Stderr = cmd.Stdout
 	if err := cmd.Start(); err != nil {
-		return nil, err
+		return err
 	}
-	s := &Solver{name: kind, cmd: cmd, in: in, out: bufio.NewReaderSize(outp, 1<<16)}
+	s.cmd, s.in, s.out = cmd, in, bufio.NewReaderSize(outp, 1<<16)
 	if kind == "cvc5" {
 		s.send("(set-logic ALL)\n")
 	}
 	s.send("(set-option :produce-models true)\n")
-	return s, nil
+	return nil
 }
 
 func (s *Solver) send(txt string) {
@@ -91,10 +107,38 @@ func (s *Solver) checkSat() Verdict {
 	t0 := time.Now()
 	s.send("(check-sat)\n")
 	v := Unknown
+	// watchdog: the solver's own per-query limit is a soft one; a query that ignores it is abandoned
+	proc := s.cmd.Process
+	var mu sync.Mutex
+	fired := false
+	wd := time.AfterFunc(time.Duration(2*s.timeoutMs+5000)*time.Millisecond, func() {
+		mu.Lock()
+		fired = true
+		mu.Unlock()
+		proc.Kill()
+	})
+	defer func() {
+		wd.Stop()
+	}()
 	for {
 		line, err := s.out.ReadString('\n')
 		if err != nil {
+			mu.Lock()
+			f := fired
+			mu.Unlock()
 			s.lastErr = "solver died: " + err.Error()
+			if !f {
+				wd.Stop()
+				s.cmd.Wait()
+				s.lastErr += " (" + s.cmd.ProcessState.String() + ")"
+				// restart so that later paths have a working back end
+				if s.spawn() == nil && s.onRestart != nil {
+					s.onRestart()
+					if s.tempPush {
+						s.send("(push 1)\n")
+					}
+				}
+			}
 			break
 		}
 		line = strings.TrimSpace(line)
@@ -121,6 +165,24 @@ func (s *Solver) checkSat() Verdict {
 		// some other output (warnings): ignore
 	}
 	s.elapsed += time.Since(t0)
+	wd.Stop()
+	mu.Lock()
+	wasKilled := fired
+	mu.Unlock()
+	if wasKilled {
+		s.cmd.Wait()
+		s.kills++
+		s.lastErr = ""
+		v = Unknown
+		if err := s.spawn(); err != nil {
+			s.lastErr = "cannot restart the solver: " + err.Error()
+		} else if s.onRestart != nil {
+			s.onRestart()
+			if s.tempPush {
+				s.send("(push 1)\n")
+			}
+		}
+	}
 	if s.lastErr != "" {
 		v = Unknown
 	}
